@@ -1,4 +1,5 @@
 import Pocket.Lemmas.ParseWF
+import Pocket.Lemmas.ParseFilterWF
 /-
 C03 — all parsers are total and memory-safe on arbitrary bytes and buffer sizes.
 
@@ -63,6 +64,19 @@ theorem tagsFromJson_wellformed (inp buf : Bytes) (c n : Nat) (out : Bytes)
     simpa using this
   · cases h
   · cases h
+
+/-- **a successful `Filter::from_json` is structurally well-formed**: it wrote, inside the buffer,
+exactly the encoding of a filter whose counts, lengths and offsets are consistent; every accessor
+and iterator (`filterDecode`) reads that filter back without leaving the value -/
+theorem parseFilter_wellformed (inp buf : Bytes) (c n : Nat) (out : Bytes)
+    (h : parseFilter inp buf = .ok (c, n, out)) :
+    c ≤ inp.length ∧ n ≤ buf.length ∧ out.length = buf.length ∧ out.drop n = buf.drop n ∧
+    ∃ f, filterDecode (out.take n) = .ok f ∧ FilterSized f := by
+  obtain ⟨f, hs, rfl, hn, hnb, hc⟩ := parseFilter_wf inp buf c n out h
+  refine ⟨hc, hnb, ?_, ?_, f, ?_, hs⟩
+  · simp [← hn]; omega
+  · rw [List.drop_left' hn.symm]
+  · rw [List.take_left' hn.symm]; exact filterDecode_encode f hs
 
 /-- non-vacuity: a concrete event text is accepted (so the hypotheses above are satisfiable), and
 a truncated one is an error, not a panic -/
